@@ -113,14 +113,31 @@ func (v *variablesMappingVisitor) LeaveDocument(operation, definition *ast.Docum
 }
 
 func (v *variablesMappingVisitor) EnterArgument(ref int) {
-	if v.operation.Arguments[ref].Value.Kind != ast.ValueKindVariable {
-		return
-	}
 	if len(v.Ancestors) == 0 || v.Ancestors[0].Kind != ast.NodeKindOperationDefinition {
 		return
 	}
+	v.collectVariables(v.operation.Arguments[ref].Value)
+}
 
-	varValueRef := v.operation.Arguments[ref].Value.Ref
+// collectVariables collects the variables of an argument value in depth-first order,
+// including the ones nested in list and object literals
+// (literals of directive arguments are not extracted into variables, so they could contain variables)
+func (v *variablesMappingVisitor) collectVariables(value ast.Value) {
+	switch value.Kind {
+	case ast.ValueKindVariable:
+		v.collectVariable(value.Ref)
+	case ast.ValueKindList:
+		for _, itemRef := range v.operation.ListValues[value.Ref].Refs {
+			v.collectVariables(v.operation.Values[itemRef])
+		}
+	case ast.ValueKindObject:
+		for _, fieldRef := range v.operation.ObjectValues[value.Ref].Refs {
+			v.collectVariables(v.operation.ObjectFields[fieldRef].Value)
+		}
+	}
+}
+
+func (v *variablesMappingVisitor) collectVariable(varValueRef int) {
 	varNameBytes := v.operation.VariableValueNameBytes(varValueRef)
 
 	variableDefinitionRef, exists := v.operation.VariableDefinitionByNameAndOperation(v.operationRef, varNameBytes)
